@@ -401,7 +401,7 @@ func runC16(t fataler, c c16Case) (string, c16Result) {
 func TestC16(t *testing.T) {
 	rec := evid.For("C16")
 	rec.Rule = "rapid-generated schedules in virtual time: 1-4 writers (Write and multi-chunk Writer with pauses between chunks) and 0-2 pingers starting at drawn instants, a close cause {local Close, peer Close frame, protocol violation, read-limit excess, CloseRead + data message, NetConn type mismatch, wsjson decode failure} at a drawn instant, peer echo {immediate, late, never} preceded by 0-2 Pings from the peer, optional transport gate holding the library's writes, then the user's final Close or CloseNow; the raw peer records every frame until transport EOF. Non-trivial: a write/ping call was issued at or after the instant the Close frame was written, or a Writer message was open at that instant. distinct = hash(mode, cause, echo, final, gate, per-writer op shapes and timing classes)."
-	rapid.Check(t, func(rt *rapid.T) {
+	checkProp(t, func(rt *rapid.T) {
 		c := genC16(rt)
 		var msg string
 		var res c16Result
